@@ -286,6 +286,8 @@ def run_script(binary, steps, trace_path=None, drain_ms=20, prefix=None, cwd=Non
                 pl = position_payload(st["line"])
                 if pl:
                     extra["position"] = pl
+            if st["line"].split()[:1] == ["ucinewgame"]:
+                extra["newgame"] = True
             s.send(st["line"], extra)
             if st.get("pause_ms"):
                 s.drain(st["pause_ms"])
